@@ -121,4 +121,5 @@ fn sysevt_take_once()
     let c = d.take();
     assert!(a == Some(v));
     assert!(b.is_none() && c.is_none(), "C04: payload taken at most once");
+    kani::cover!(true, "end of harness reached");
 }
